@@ -288,13 +288,22 @@ class Report:
         self.cov = {}
         self.samples = []
         self.assumptions = []
-        self.known = [k for k in load_known() if k.get("property") == prop and k.get("status", "open") == "open"]
+        self.known = [dict(k) for k in load_known() if k.get("property") == prop and k.get("status", "open") == "open"]
+        for k in self.known:
+            # a finding may enumerate the exact failing cases (one signature each) in a committed file
+            if k.get("cases_file"):
+                with open(os.path.join(VERIF, k["cases_file"])) as f:
+                    k["cases"] = set(json.load(f))
 
     def violation(self, signature, what, replay):
+        if os.environ.get("VERIF_DUMP_SIGS"):
+            with open(os.environ["VERIF_DUMP_SIGS"], "a") as f:
+                f.write(json.dumps({"property": self.prop, "signature": signature}) + "\n")
         for k in self.known:
-            if re.search(k["signature"], signature):
-                self.known_hits.setdefault(k["signature"], [k, 0])
-                self.known_hits[k["signature"]][1] += 1
+            if ("cases" in k and signature in k["cases"]) or ("signature" in k and re.search(k["signature"], signature)):
+                kid = k.get("signature") or k.get("cases_file")
+                self.known_hits.setdefault(kid, [k, 0])
+                self.known_hits[kid][1] += 1
                 return
         if len(self.violations) < 50 or signature not in self._sigs:
             self.violations.append((signature, what, replay))
